@@ -95,8 +95,17 @@ func NewProof(private Private, hash *hash.Hash, public Public) *Proof {
 }
 
 func (p *Proof) Verify(public Public, hash *hash.Hash) bool {
-	if p == nil {
+	if p == nil || public.N == nil || public.Aux == nil {
 		return false
+	}
+	// every field must be present and of bounded size before it is hashed or used as a base or an exponent
+	if !arith.IsValidNatModN(public.Aux.N(), p.Comm.P, p.Comm.Q, p.Comm.A, p.Comm.B, p.Comm.T) {
+		return false
+	}
+	for _, z := range []*saferith.Int{p.Sigma, p.Z1, p.Z2, p.W1, p.W2, p.V} {
+		if !arith.IsBoundedInt(z) {
+			return false
+		}
 	}
 
 	e, err := challenge(hash, public, p.Comm)
